@@ -722,6 +722,30 @@ pub fn cmd_record_mt(args: &HashMap<String, String>) -> i32 {
     let rec = Recorder::install();
     let db = Arc::new(Db::open_or_create(&options(&dir, &u.cols, seed, true)).expect("create"));
     rec.take();
+    // the hook sink is a yield point: stretch the windows in which one layer hands data over to the next (a reindex
+    // batch collected but not yet published in the log overlay; a record planned but not yet published; a record
+    // being written to the tables), so that the reader threads fall into them
+    // (`hot` is set while a worker sits in the longest of them: readers, otherwise paced so that their reads are
+    // spread over the whole run, then read as fast as they can)
+    let hot = Arc::new(AtomicBool::new(false));
+    {
+        let n = AtomicUsize::new(0);
+        let hot = hot.clone();
+        rec.set_callback(Some(Arc::new(move |name: &str, _a: &[u64], _pos: usize| {
+            let k = n.fetch_add(1, Ordering::Relaxed);
+            match name {
+                "ReindexRecord" | "RcReindexRecord" => {
+                    hot.store(true, Ordering::SeqCst);
+                    std::thread::sleep(std::time::Duration::from_millis(12));
+                    hot.store(false, Ordering::SeqCst);
+                },
+                "BeginRecord" | "EnactBegin" | "CleanCovl" | "EndRead" if k % 13 == 0 => {
+                    std::thread::sleep(std::time::Duration::from_micros(600))
+                },
+                _ => {},
+            }
+        })));
+    }
     let ctr = Arc::new(AtomicUsize::new(0));
     let stop = Arc::new(AtomicBool::new(false));
     let problems: Arc<Mutex<Vec<String>>> = Arc::new(Mutex::new(Vec::new()));
@@ -736,21 +760,28 @@ pub fn cmd_record_mt(args: &HashMap<String, String>) -> i32 {
                     problems.lock().unwrap().push(e);
                     return
                 }
-                if rng.gen::<u32>() % 4 == 0 {
-                    std::thread::yield_now();
+                // (paced: an index growth is migrated by the log worker only when a commit arrives after the record
+                // that triggered it was applied, so the commits must not all be queued before the first is applied)
+                match rng.gen::<u32>() % 8 {
+                    0 | 1 => std::thread::yield_now(),
+                    2 | 3 | 4 => std::thread::sleep(std::time::Duration::from_micros(500)),
+                    _ => {},
                 }
             }
         }));
     }
     let mut rhandles = Vec::new();
     for r in 0..nreaders {
-        let (db, u, rec, stop, problems) = (db.clone(), u.clone(), rec.clone(), stop.clone(), problems.clone());
+        let (db, u, rec, stop, problems, hot) = (db.clone(), u.clone(), rec.clone(), stop.clone(), problems.clone(), hot.clone());
         rhandles.push(std::thread::spawn(move || {
             let mut rng = SmallRng::seed_from_u64(seed * 77 + r as u64);
             let t = tid();
             let mut n = 0usize;
             while !stop.load(Ordering::SeqCst) && n < max_reads {
                 n += 1;
+                if !hot.load(Ordering::SeqCst) {
+                    std::thread::sleep(std::time::Duration::from_micros(120));
+                }
                 let c = rng.gen::<usize>() % u.cols.len();
                 let k = 1 + rng.gen::<usize>() % u.nkeys;
                 rec.push(json!({"e": "GetCall", "t": t, "c": c + 1, "k": k}));
@@ -783,8 +814,16 @@ pub fn cmd_record_mt(args: &HashMap<String, String>) -> i32 {
     for h in handles {
         let _ = h.join();
     }
-    // let the workers make progress while readers keep reading, then stop
-    std::thread::sleep(std::time::Duration::from_millis(30));
+    // let the workers make progress while readers keep reading (until nothing is queued and no index growth is
+    // pending, at most 400 ms), then stop
+    for _ in 0..40 {
+        std::thread::sleep(std::time::Duration::from_millis(10));
+        let growing = (0..u.cols.len()).any(|c| u.cols[c].collide && db.verif_dump(c as u8).map_or(false, |d| d.indexes.len() > 1));
+        if db.verif_pipeline_sizes().0 == 0 && !growing {
+            break
+        }
+    }
+    std::thread::sleep(std::time::Duration::from_millis(20));
     stop.store(true, Ordering::SeqCst);
     for h in rhandles {
         let _ = h.join();
@@ -832,6 +871,7 @@ pub fn cmd_record_mt(args: &HashMap<String, String>) -> i32 {
             Err(p) => problems.lock().unwrap().push(format!("panic in open: {p}")),
         }
     }
+    rec.set_callback(None);
     Recorder::uninstall();
     let events = rec.take();
     write_trace(&args["out"], &events);
